@@ -201,7 +201,7 @@ def run(ck):
     quick = ck.tier == "quick"
     sdir = os.path.join(vlib.OUT, "c17-synth-%d" % ck.seed)
     os.makedirs(sdir, exist_ok=True)
-    nsynth = 400 if quick else 5000
+    nsynth = 300 if quick else 4000
     synth = [gen_synth(ck.rng, os.path.join(sdir, "s%04d.synth" % i)) for i in range(nsynth)]
     corpus = [f for f in vlib.corpus_files() if os.path.getsize(f) < (600000 if quick else 30000000)]
     fixed = [f for f in corpus if "/test/test." in f]
@@ -212,7 +212,7 @@ def run(ck):
     files = fixed + rest + synth
     ck.rng.shuffle(files)
     nsh = 16 if quick else 32
-    ncases = 150 if quick else 600
+    ncases = 100 if quick else 500
     shards = [(exe, ck.seed, not quick, ncases, files[i::nsh]) for i in range(nsh)]
     results = vlib.pmap(run_shard, shards, workers=16)
     evaluate(ck, exe, results)
